@@ -42,20 +42,22 @@ type Violation struct {
 }
 
 type RunResult struct {
-	Seed       uint64      `json:"seed"`
-	Spec       *RunSpec    `json:"spec,omitempty"`
-	Dec        *Decisions  `json:"decisions,omitempty"`
-	Stats      simrt.Stats `json:"stats"`
-	Outcomes   [][]string  `json:"outcomes,omitempty"`
-	Violation  *Violation  `json:"violation,omitempty"`
-	Nontrivial bool        `json:"nontrivial"`
-	Sig        string      `json:"sig"`     // hash of (workload, decisions actually taken)
-	SchedSig   string      `json:"schedsig"` // hash of the switch sequence
-	TraceSig   string      `json:"tracesig"` // hash of all decisions + outcomes: replay must reproduce it
-	WallMs     int64       `json:"wall_ms"`
-	SimMs      int64       `json:"sim_ms"`
-	Probes     map[string]int `json:"probes,omitempty"`
-	Harness    string      `json:"harness_error,omitempty"`
+	Seed        uint64         `json:"seed"`
+	Spec        *RunSpec       `json:"spec,omitempty"`
+	Dec         *Decisions     `json:"decisions,omitempty"`
+	Stats       simrt.Stats    `json:"stats"`
+	Outcomes    [][]string     `json:"outcomes,omitempty"`
+	Violation   *Violation     `json:"violation,omitempty"`
+	Nontrivial  bool           `json:"nontrivial"`
+	Sig         string         `json:"sig"`      // hash of (workload, decisions actually taken)
+	SchedSig    string         `json:"schedsig"` // hash of the switch sequence
+	TraceSig    string         `json:"tracesig"` // hash of all decisions + outcomes: replay must reproduce it
+	WallMs      int64          `json:"wall_ms"`
+	SimMs       int64          `json:"sim_ms"`
+	Probes      map[string]int `json:"probes,omitempty"`
+	Harness     string         `json:"harness_error,omitempty"`
+	PrefixSeeds []uint64       `json:"prefix_seeds,omitempty"`
+	Tier        string         `json:"tier,omitempty"`
 }
 
 // checkForeign is set when the instrumenter saw `go` statements in repository code.
@@ -310,6 +312,45 @@ func genC09(c *Corpus, pl pools, seed uint64, tier string, failSites []string) *
 	return sp
 }
 
+// genC04c: several tasks validate the SAME unreadable document at the same time (through a shared
+// compiled profile and through the text path). Each of them must get an error: sharing work
+// between concurrent calls must not turn one caller's error into another caller's verdict.
+func genC04c(c *Corpus, pl pools, seed uint64, tier string) *RunSpec {
+	r := &rng{seed}
+	sp := &RunSpec{Mode: "c04", Seed: seed}
+	pool := pl.small
+	p := pool[r.intn(len(pool))]
+	d := smallData(c, r, p, 60000)
+	dlen := c.Profiles[p].Data[d].Size
+	faults := []string{"trunc:0", fmt.Sprintf("trunc:%d", r.intn(dlen+1)), fmt.Sprintf("trunc:%d", dlen/2), "bom", "utf16le",
+		fmt.Sprintf("ld:%s:%d", ldOps[r.intn(len(ldOps))], r.intn(50)), fmt.Sprintf("flip:%d:%d", r.intn(dlen+1), r.intn(8))}
+	f1 := faults[r.intn(len(faults))]
+	f2 := faults[r.intn(len(faults))]
+	sp.Prologue = []Op{{Kind: "compile", P: p, D: -1, H: 0, T: baseInstant}}
+	nTasks := 2 + r.intn(3)
+	for t := 0; t < nTasks; t++ {
+		var ops []Op
+		n := 1 + r.intn(2)
+		for i := 0; i < n; i++ {
+			op := Op{P: p, D: d, H: 0, T: baseInstant, Fault: f1}
+			if r.chance(20) {
+				op.Fault = f2
+			}
+			if r.chance(10) {
+				op.Fault = "" // a readable sibling call in the mix
+			}
+			op.Kind = []string{"vcompiled", "vcompiled", "vcompiled_cfg", "validate", "validate_cfg"}[r.intn(5)]
+			op.Chan = r.chance(20)
+			ops = append(ops, op)
+		}
+		sp.Tasks = append(sp.Tasks, ops)
+	}
+	sp.Slots = 1
+	sp.Pol = genPolicy(r, 2*nTasks, true)
+	sp.Pol.Torn = false
+	return sp
+}
+
 // genC06: the same (profile, data, configuration, clock) many times: repeated calls, through a
 // compiled profile, code generation, and concurrently; every map range permuted.
 func genC06(c *Corpus, pl pools, seed uint64, tier string) *RunSpec {
@@ -421,6 +462,19 @@ func execRun(c *Corpus, rc *refCache, sp *RunSpec, replay *Decisions) *RunResult
 			if got.ErrTxt == "no handle" && got.Err {
 				// the compile this op depends on failed (as its own reference says): nothing to compare
 				res.Probes["skipped_no_handle"]++
+				return
+			}
+		}
+		if sp.Mode == "c04" && op.D >= 0 && op.Fault != "" {
+			_, dtxt := c.texts(op)
+			bad, reason, und := unreadable(dtxt)
+			if bad && !und {
+				res.Probes["unreadable_concurrent_call"]++
+				if cls, det := judge(op.Kind, got); cls != "" {
+					res.Violation = &Violation{Class: cls, Task: ti, Op: oi, Kind: op.Kind,
+						Detail: fmt.Sprintf("profile=%s data=%s fault=%q [%s]: %s (while %d tasks validate concurrently)", c.Profiles[op.P].ID, dataID(c, op), op.Fault, clip(reason), det, len(sp.Tasks)),
+						Sig:    cls + ":concurrent:" + faultKind(op.Fault)}
+				}
 				return
 			}
 		}
